@@ -8,7 +8,7 @@ package promise
 // The wire names of the five states; the decoder is the inverse of the encoder (a state list carried by a
 // search cursor must come back as the same states: C14, C20).
 //@ func (State).String
-//@ props C14 C20 C01 C15
+//@ props C14 C20 C01 C15 C02 C03 C04
 //@ nopanic C13
 //@ requires s == Pending || s == Resolved || s == Rejected || s == Canceled || s == Timedout
 //@ ensures (s == Pending) == (result == "PENDING") && (s == Resolved) == (result == "RESOLVED") && (s == Rejected) == (result == "REJECTED") && (s == Canceled) == (result == "REJECTED_CANCELED") && (s == Timedout) == (result == "REJECTED_TIMEDOUT")
